@@ -323,12 +323,30 @@ def extChecks (line implLine : String) : Option String :=
       go p.steps (none :: acts.map some) []
   | _, _ => some "unparseable-observation"
 
+/-! `joinprobe` cases (no model line; the clause needs no reference): a `JoinHandle` is polled from OUTSIDE its command with a
+    waker that, when it is woken, polls the handle again at once and records what it saw. The model's `finishTask` sets
+    `finished` before it wakes the join handles (M.Rt.finishTask; executor.rs:173-181), so whoever is woken by a join handle
+    finds the task finished: every probe must read `R`. A probe that reads `P` means the wake-up was sent while the task still
+    looked unfinished — the woken side re-registers with a task that is about to be dropped and is never told (C08: with the
+    joiner on another thread this is a lost wake-up). -/
+def joinprobeChecks (impl : String) : Option String :=
+  if impl.startsWith "panic" then some "panicked" else
+  match (impl.trimAscii.toString.splitOn " ").filter (· ≠ "") with
+  | [probes, final] =>
+    if !probes.startsWith "probes:" || !final.startsWith "final:" then some "unparseable-observation"
+    else if (probes.drop 7).toString.toList.any (· != 'R') then some "join-handle-woken-before-finished"
+    else if (probes.drop 7).toString.isEmpty then some "join-handle-never-woken"
+    else if final != "final:R" then some "join-handle-not-ready-after-task-ended"
+    else none
+  | _ => some "unparseable-observation"
+
 def oracle (prop : String) (input : String) : String :=
   match input.splitOn "\t" with
   | [line, impl] =>
     if !isCase line then "bad-case" else
     let kind := match Sexp.parse line with | some (.list (.atom h :: _)) => h | _ => ""
     let r := if kind == "law" || kind == "comm" || kind == "hosts" then canonChecks prop line impl
+             else if kind == "joinprobe" then joinprobeChecks impl
              else if kind == "ext" || kind == "complete" then extChecks line impl
              else rawChecks prop line impl
     match r with
